@@ -259,37 +259,37 @@ func (g *gen) keysDirect(r *vlib.Rand, w world) {
 		Sample: map[string]any{"kind": "keys", "root": w.Root, "list": l, "keys": keys}})
 }
 
-// ambientE2E runs PolicyCollections + buildWorkloadPolicies over static krt collections.
-func (g *gen) ambientE2E(w world, extraTags ...string) {
-	id, ok := g.next()
-	if !ok {
-		return
-	}
-	all := sortByKey(w.All)
-	w.All = all
+// ambientObs is what the real ambient code produced for one world.
+type ambientObs struct {
+	attached     []string
+	oKeys        string
+	staticExists bool
+	oPols        []string
+	nconv        int
+	relevant     string // the part the oracle looks at: attached keys, static policy, the referenced converted policy
+}
+
+// observeAmbient runs PolicyCollections + buildWorkloadPolicies over static krt collections (w.All sorted by key).
+func observeAmbient(w world) (o ambientObs, kind, detail string) {
 	var pas []*securityclient.PeerAuthentication
-	for _, p := range all {
+	for _, p := range w.All {
 		pas = append(pas, p.k8s())
 	}
-	var attached []string
 	var pols []*security.Authorization
 	if pan, msg := vlib.Recover(func() {
-		attached, pols = ambient.VerifAmbientPeerAuth(nsName(w.Root), pas, nsName(w.WlNs), labelMap(w.Labels))
+		o.attached, pols = ambient.VerifAmbientPeerAuth(nsName(w.Root), pas, nsName(w.WlNs), labelMap(w.Labels))
 	}); pan {
-		g.c.Violate(vlib.Violation{ID: id, Kind: "panic", Detail: msg, Case: w})
-		return
+		return o, "panic", msg
 	}
-	staticExists := false
 	var conv []*security.Authorization
 	for _, p := range pols {
 		if p.Name == ambient.VerifStaticStrictPolicyName() {
-			staticExists = true
+			o.staticExists = true
 			// the static policy must be the unconditional "deny unauthenticated" policy
 			if p.Action != security.Action_DENY || len(p.Groups) != 1 || len(p.Groups[0].Rules) != 1 || len(p.Groups[0].Rules[0].Matches) != 1 ||
 				len(p.Groups[0].Rules[0].Matches[0].NotPrincipals) != 1 || len(p.Groups[0].Rules[0].Matches[0].DestinationPorts) != 0 ||
 				len(p.Groups[0].Rules[0].Matches[0].NotDestinationPorts) != 0 || p.Namespace != nsName(w.Root) {
-				g.c.Violate(vlib.Violation{ID: id, Kind: "oracle", Detail: fmt.Sprintf("static strict policy has unexpected shape: %v", p), Case: w})
-				return
+				return o, "oracle", fmt.Sprintf("static strict policy has unexpected shape: %v", p)
 			}
 			continue
 		}
@@ -301,40 +301,88 @@ func (g *gen) ambientE2E(w world, extraTags ...string) {
 		}
 		return conv[i].Name < conv[j].Name
 	})
-	var oPols []string
+	o.nconv = len(conv)
+	referenced := ""
 	for _, p := range conv {
 		s, err := gAuthz(p)
 		if err != nil {
-			g.c.Violate(vlib.Violation{ID: id, Kind: "oracle", Detail: err.Error(), Case: w})
-			return
+			return o, "oracle", err.Error()
 		}
-		oPols = append(oPols, s)
+		o.oPols = append(o.oPols, s)
+		for _, k := range o.attached {
+			if k == p.Namespace+"/"+p.Name {
+				referenced = s
+			}
+		}
 	}
-	oKeys, err := gKeys(w.Root, attached)
-	if err != nil {
-		g.c.Violate(vlib.Violation{ID: id, Kind: "oracle", Detail: err.Error(), Case: w})
+	var err error
+	if o.oKeys, err = gKeys(w.Root, o.attached); err != nil {
+		return o, "oracle", err.Error()
+	}
+	o.relevant = o.oKeys + "|" + vlib.B(o.staticExists) + "|" + referenced
+	return o, "", ""
+}
+
+// respell rewrites every "selector: {}" of the root / workload namespace into "no selector".
+func respell(w world) (world, bool) {
+	out := w
+	out.All = append([]PA{}, w.All...)
+	changed := false
+	for i := range out.All {
+		if out.All[i].Sel == 1 && (out.All[i].Ns == w.Root || out.All[i].Ns == w.WlNs) {
+			out.All[i].Sel = 0
+			changed = true
+		}
+	}
+	return out, changed
+}
+
+// ambientE2E emits one Ambient case.  A world that spells a namespace-/mesh-level policy "selector: {}" is run a
+// second time with that policy respelled to "no selector" (same meaning for the sidecar path and for the
+// specification): the K9 tag is given exactly when the respelling changes what the oracle looks at, and the
+// respelled twin is emitted as a case of its own, so a failure that is not due to the spelling is never masked.
+func (g *gen) ambientE2E(w world, extraTags ...string) {
+	w.All = sortByKey(w.All)
+	twin, hasEmpty := respell(w)
+	g.ambientOne(w, twin, hasEmpty, extraTags)
+	if hasEmpty {
+		g.ambientOne(twin, twin, false, append(append([]string{}, extraTags...), "ambient-k9-twin"))
+	}
+}
+
+func (g *gen) ambientOne(w, twin world, hasEmpty bool, extraTags []string) {
+	id, ok := g.next()
+	if !ok {
+		return
+	}
+	o, kind, detail := observeAmbient(w)
+	if kind != "" {
+		g.c.Violate(vlib.Violation{ID: id, Kind: kind, Detail: detail, Case: w})
 		return
 	}
 	l := classify(w)
-	if f := ambientFinding(w, l); f != "" {
-		g.c.FindingOf[id] = f
-		extraTags = append(extraTags, "finding:"+f)
+	finding := ambientFinding(l)
+	if hasEmpty {
+		if o2, kind2, _ := observeAmbient(twin); kind2 == "" && o2.relevant != o.relevant {
+			finding = "K9-empty-selector"
+		}
+		extraTags = append(extraTags, "ambient-empty-selector")
 	}
-	tags := append(append([]string{"ambient", "ambient-keys=" + fmt.Sprint(len(attached)), "ambient-policies=" + fmt.Sprint(len(conv))}, levelTags(l)...), extraTags...)
-	g.c.Add(vlib.Case{ID: id, Term: vlib.App("Ambient", vlib.NI(id), vlib.NI(w.Root), gPAs(all), vlib.NI(w.WlNs), gLabels(w.Labels), gU32s(probePorts),
-		oKeys, vlib.B(staticExists), vlib.List(oPols)),
-		Tags: tags, Trivial: len(all) == 0,
-		Sample: map[string]any{"kind": "ambient", "world": w, "attached": attached, "policies": len(conv)}})
+	if finding != "" {
+		g.c.FindingOf[id] = finding
+		extraTags = append(extraTags, "finding:"+finding)
+	}
+	tags := append(append([]string{"ambient", "ambient-keys=" + fmt.Sprint(len(o.attached)), "ambient-policies=" + fmt.Sprint(o.nconv)}, levelTags(l)...), extraTags...)
+	g.c.Add(vlib.Case{ID: id, Term: vlib.App("Ambient", vlib.NI(id), vlib.NI(w.Root), gPAs(w.All), vlib.NI(w.WlNs), gLabels(w.Labels), gU32s(probePorts),
+		o.oKeys, vlib.B(o.staticExists), vlib.List(o.oPols)),
+		Tags: tags, Trivial: len(w.All) == 0,
+		Sample: map[string]any{"kind": "ambient", "world": w, "attached": o.attached, "policies": o.nconv}})
 }
 
 // ambientFinding names the known finding (known_findings.txt) an ambient case is an instance of, from the
-// shape of its input alone; "" when the case is none.
-func ambientFinding(w world, l levels) string {
-	// K9: a namespace-/mesh-level policy spelled "selector: {}" is namespace-level for the sidecar code and for
-	// convertedSelectorPeerAuthentications but invisible to the PeerAuthByNamespace index and to the root fetch
-	if (l.mesh != nil && l.mesh.Sel == 1) || (l.ns != nil && l.ns.Sel == 1) {
-		return "K9-empty-selector"
-	}
+// winning (mesh, namespace, workload) policies alone; "" when the case is none.  (K9 is decided in ambientOne by
+// re-running the real code on the respelled world.)
+func ambientFinding(l levels) string {
 	if l.wl == nil || len(l.wl.Ports) == 0 {
 		return ""
 	}
@@ -352,13 +400,9 @@ func ambientFinding(w world, l levels) string {
 		parent = set(l.ns)
 	}
 	wm := l.wl.Mtls
-	hasS := hasPort(l.wl, func(m int) bool { return m == mStrict })
 	hasP := hasPort(l.wl, func(m int) bool { return m == mPermissive })
 	hasD := hasPort(l.wl, func(m int) bool { return m == mDisable })
 	switch {
-	case (wm == mPermissive || wm == mDisable) && hasS && set(l.mesh) == mStrict && set(l.ns) == mUnset:
-		// clause #3 of the STRICT-port skip condition is not under the "workload mode is UNSET" guard
-		return "K2-strict-port-skip"
 	case wm == mUnset && parent == mStrict && hasD && !hasP:
 		// convertedSelectorPeerAuthentications looks for PERMISSIVE port exceptions only: the static strict policy stays attached
 		return "C10-disable-port-under-strict-parent"
@@ -440,20 +484,21 @@ func TestGen(t *testing.T) {
 		cfg := PA{Name: 1, Ns: rr.Intn(2), Time: 100, Sel: rr.Intn(3), Labels: [][2]int{{0, 0}}, Mtls: rr.Intn(4), Ports: genPorts(rr), Variant: rr.Intn(64)}
 		g.convertDirect(0, cfg, nil, nil, "", "convert-out-of-contract")
 	}
-	// minimal witnesses of the known findings (the same inputs as the *_refuted theorems of coq/C10/Props.v)
+	// minimal witnesses of the known findings and of the repaired K2 (the same inputs as the *_refuted / *_repaired
+	// theorems of coq/C10/Props.v)
 	{
 		lbl := [][2]int{{0, 0}}
 		mesh := PA{Name: 3, Ns: 0, Time: 100, Sel: 0, Mtls: mStrict}
 		wlp := func(m int, pm int) PA {
 			return PA{Name: 1, Ns: 1, Time: 300, Sel: 2, Labels: lbl, Mtls: m, Ports: []portMode{{8080, pm}}}
 		}
-		g.ambientE2E(world{Root: 0, WlNs: 1, Labels: lbl, All: []PA{mesh, wlp(mPermissive, mStrict)}}, "witness:K2")
+		g.ambientE2E(world{Root: 0, WlNs: 1, Labels: lbl, All: []PA{mesh, wlp(mPermissive, mStrict)}}, "witness:K2-repaired")
 		g.ambientE2E(world{Root: 0, WlNs: 1, Labels: lbl, All: []PA{mesh, wlp(mUnset, mDisable)}}, "witness:disable-port")
 		g.ambientE2E(world{Root: 0, WlNs: 1, Labels: lbl, All: []PA{mesh, {Name: 2, Ns: 1, Time: 200, Sel: 0, Mtls: mUnset}, wlp(mUnset, mPermissive)}}, "witness:unset-ns")
 		g.ambientE2E(world{Root: 0, WlNs: 1, Labels: lbl, All: []PA{{Name: 2, Ns: 1, Time: 200, Sel: 1, Mtls: mStrict}, wlp(mUnset, mPermissive)}}, "witness:K9")
 		// the same inputs through convertPeerAuthentication alone
 		w1 := wlp(mPermissive, mStrict)
-		g.convertDirect(0, w1, nil, &mesh, "", "witness:K2")
+		g.convertDirect(0, w1, nil, &mesh, "", "witness:K2-repaired")
 		w1.Mtls = mUnset // without the PERMISSIVE workload mode the port rule is also skipped, correctly: the mesh policy covers it
 		g.convertDirect(0, w1, nil, &mesh, "", "witness:K2-control")
 		g.convertDirect(0, wlp(mPermissive, mStrict), nil, nil, "", "witness:K2-control")
